@@ -6,6 +6,8 @@ Audit entry for the stand-alone check `./check startup_dev` (vlib/props/startup_
 namespace Cjet.Props.STARTUP_DEV
 
 theorem startup_releases_all_listeners : type_of% @Cjet.Props.Startup.startup_releases_all_listeners := @Cjet.Props.Startup.startup_releases_all_listeners
+theorem startup_failure_releases_all : type_of% @Cjet.Props.Startup.startup_failure_releases_all := @Cjet.Props.Startup.startup_failure_releases_all
+theorem signals_restored : type_of% @Cjet.Props.Startup.signals_restored := @Cjet.Props.Startup.signals_restored
 theorem startup_failure_releases_all_partial : type_of% @Cjet.Props.Startup.startup_failure_releases_all_partial := @Cjet.Props.Startup.startup_failure_releases_all_partial
 theorem startup_failure_releases_all_counterexample : type_of% @Cjet.Props.Startup.startup_failure_releases_all_counterexample := @Cjet.Props.Startup.startup_failure_releases_all_counterexample
 theorem startup_failure_leaks_peer_when_daemon_fails : type_of% @Cjet.Props.Startup.startup_failure_leaks_peer_when_daemon_fails := @Cjet.Props.Startup.startup_failure_leaks_peer_when_daemon_fails
